@@ -294,6 +294,10 @@ def run_e1(sc, scratch=None, value_check=True):
                 v("lifecycle-order", "c03", f"{c['name']}: call history {s!r} does not match initialize connect+ validate update* finalize")
             if comps[ci].status != ComponentStatus.FINALIZED:
                 v("lifecycle-order", "status", f"{c['name']} ends in {comps[ci].status}")
+            if isinstance(comps[ci], (SimComp, SimPull, SimSink)) or type(comps[ci]).__name__ == "SimStatic":
+                nh = sum(1 for e in rec.events if e[0] == "HOOK" and e[1] == c["name"] and e[2] == "finalize")
+                if nh != 1:
+                    v("lifecycle-order", "finalize-hook", f"{c['name']}: its _finalize hook ran {nh} times (status {comps[ci].status.name})")
         for i in sims:
             c = sc["components"][i]
             finished = c.get("finish_at") is not None and getattr(comps[i], "k", 0) >= c["finish_at"]
